@@ -439,6 +439,12 @@ impl DiskIO {
 
     pub fn write_sectors_sync(&self, sector: u64, data: &[u8]) -> Result<()> {
         self.ensure_writable()?;
+        #[cfg(feoxdb_verif)]
+        let verif_fault = crate::verif::io_decide("write", sector, data.len());
+        #[cfg(feoxdb_verif)]
+        if verif_fault == 1 {
+            return Err(FeoxError::IoError(crate::verif::injected("write", "before")));
+        }
         let offset = sector * FEOX_BLOCK_SIZE as u64;
 
         #[cfg(unix)]
@@ -520,11 +526,23 @@ impl DiskIO {
             }
         }
 
+        #[cfg(feoxdb_verif)]
+        crate::verif::emit_data("w", sector, 0, data);
+        #[cfg(feoxdb_verif)]
+        if verif_fault == 2 {
+            return Err(FeoxError::IoError(crate::verif::injected("write", "after")));
+        }
         Ok(())
     }
 
     pub fn flush(&self) -> Result<()> {
         self.ensure_writable()?;
+        #[cfg(feoxdb_verif)]
+        let verif_fault = crate::verif::io_decide("fsync", 0, 0);
+        #[cfg(feoxdb_verif)]
+        if verif_fault == 1 {
+            return Err(FeoxError::IoError(crate::verif::injected("fsync", "before")));
+        }
         #[cfg(unix)]
         unsafe {
             if libc::fsync(self.fd) == -1 {
@@ -537,6 +555,12 @@ impl DiskIO {
             self._file.sync_all().map_err(FeoxError::IoError)?;
         }
 
+        #[cfg(feoxdb_verif)]
+        crate::verif::emit("fsync", &[], 0, 0, 0);
+        #[cfg(feoxdb_verif)]
+        if verif_fault == 2 {
+            return Err(FeoxError::IoError(crate::verif::injected("fsync", "after")));
+        }
         Ok(())
     }
 
@@ -723,6 +747,8 @@ impl DiskIO {
                     "Partial write",
                 )));
             }
+            #[cfg(feoxdb_verif)]
+            crate::verif::emit_data("w", block_sector, 2, scratch.as_slice());
 
             offset += blocks;
         }
@@ -763,6 +789,15 @@ impl DiskIO {
     #[cfg(target_os = "linux")]
     fn batch_write_inner<T: BatchWriteData>(&mut self, writes: &[(u64, T)]) -> Result<()> {
         self.ensure_writable()?;
+
+        #[cfg(feoxdb_verif)]
+        if crate::verif::force_sync_io() {
+            for (sector, data) in writes {
+                self.write_sectors_sync(*sector, data.as_slice())?;
+            }
+            self.flush()?;
+            return Ok(());
+        }
 
         if self.ring.is_none() {
             for (sector, data) in writes {
@@ -806,6 +841,10 @@ impl DiskIO {
                     .build()
                     .user_data(user_data_base.wrapping_add(i as u64));
 
+                    #[cfg(feoxdb_verif)]
+                    crate::verif::emit_data("w", *sector, 1, unsafe {
+                        std::slice::from_raw_parts(buffer.as_ptr(), buffer.len())
+                    });
                     buffers.mark_in_flight(i);
                     if unsafe { sq.push(&write_e) }.is_err() {
                         buffers.mark_unqueued(i);
